@@ -14,6 +14,13 @@ import stategraph
 from common import MachineryError, Verdict, write_evidence, STD_ASSUMPTIONS
 
 
+BAD_POOLS = {"p2"}      # Contexts.tla: BadPools
+
+
+class PoolJoinError(RuntimeError):
+    pass
+
+
 class FakePool:
     def __init__(self, name):
         self.name = name
@@ -27,6 +34,8 @@ class FakePool:
         self.closed += 1
 
     def join(self):
+        if self.name in BAD_POOLS:
+            raise PoolJoinError(f"worker of {self.name} lost")
         self.joined += 1
 
 
@@ -86,11 +95,23 @@ class Real:
         cm, kind, snap, pname, close = self.stack.pop()
         viol = []
         before_closed = {k: v.closed for k, v in self.pools.items()}
+        expect_join_error = (kind == "pool" and close and pname in BAD_POOLS)
         if exc is None:
-            r = cm.__exit__(None, None, None)
+            try:
+                r = cm.__exit__(None, None, None)
+                if expect_join_error:
+                    viol.append("conf_join_error_expected: closing a bad pool did not raise")
+            except PoolJoinError:
+                r = False
+                if not expect_join_error:
+                    viol.append("ExitRaised: leaving the block raised PoolJoinError for a pool that was not to be closed")
         else:
             try:
                 r = cm.__exit__(type(exc), exc, exc.__traceback__)
+            except PoolJoinError as ex:
+                r = False
+                if not expect_join_error:
+                    viol.append("ExceptionChanged: PoolJoinError instead of the injected one")
             except BaseException as ex:   # contextmanager re-raises the same exception object
                 r = False
                 if ex is not exc:
@@ -197,7 +218,7 @@ def main(prop, tier, seed, replay_path=None):
     wd = common.workdir("ctx")
     try:
         cfg = wd / "e1.cfg"
-        cfg.write_text("SPECIFICATION Spec\nCONSTANTS\n  Pools = {\"p1\", \"p2\"}\n  MaxDepth = 3\n  MaxHandlers = 2\n"
+        cfg.write_text("SPECIFICATION Spec\nCONSTANTS\n  Pools = {\"p1\", \"p2\"}\n  MaxDepth = 3\n  MaxHandlers = 2\n  BadPools = {\"p2\"}\n"
                        "  PoolOpts <- AllPoolOpts\n  AutoOpts <- AllAutoOpts\n"
                        f"  MaxOps = {6 if tier == 'quick' else 8}\nINVARIANT ContextsRestored\nINVARIANT PoolClosedIffAsked\nINVARIANT AllClosedMeansPristine\n")
         r1 = common.run_tlc("Contexts", str(cfg), workers=16, metaname="ctx-e1")
@@ -207,7 +228,7 @@ def main(prop, tier, seed, replay_path=None):
         g_cfg = wd / "g.cfg"
         # deep replay graph over reduced option sets (handlers prepared up front, entered later, entered
         # again after use, the user's reassignments in between); thorough adds a shallow graph over all options
-        g_cfg.write_text("SPECIFICATION Spec\nCONSTANTS\n  Pools = {\"p1\", \"p2\"}\n  MaxDepth = 3\n  MaxHandlers = 2\n"
+        g_cfg.write_text("SPECIFICATION Spec\nCONSTANTS\n  Pools = {\"p1\", \"p2\"}\n  MaxDepth = 3\n  MaxHandlers = 2\n  BadPools = {\"p2\"}\n"
                          "  PoolOpts <- FewPoolOpts\n  AutoOpts <- FewAutoOpts\n"
                          f"  MaxOps = {6 if tier == 'quick' else 7}\n")
         g, rg = stategraph.dump_graph("Contexts", str(g_cfg), "contexts")
